@@ -69,6 +69,9 @@ pub fn gen_delta(rng: &mut Rng, i: u64, t: u64) -> ReplicationDelta {
     ReplicationDelta::new(key, gen_value(rng, kind, t.max(1), r), ReplicaId(r))
 }
 
+/// like gen_delta with a stamp time drawn from the generator
+pub fn gen_delta_auto(rng: &mut Rng, i: u64) -> ReplicationDelta { let t = 1 + rng.below(500); gen_delta(rng, i, t) }
+
 /// canonical rendering of everything observable of an update (key, origin, full value incl. stamp/expiry/rf/clock)
 pub fn show_delta(d: &ReplicationDelta) -> String {
     let v = crate::lattice::obs(&d.value);
